@@ -15,9 +15,12 @@ type C03 struct {
 	BaseChecker
 	signers map[string]bool
 	bought  bool
+	asked   askedDenoms
 }
 
-func init()               { RegisterChecker("C03", func() Checker { return &C03{signers: map[string]bool{}} }) }
+func init() {
+	RegisterChecker("C03", func() Checker { return &C03{signers: map[string]bool{}, asked: askedDenoms{}} })
+}
 func (c *C03) ID() string { return "C03" }
 
 func (c *C03) AfterTx(w *World, t *TxCtx) {
@@ -37,6 +40,7 @@ func (c *C03) AfterTx(w *World, t *TxCtx) {
 		return
 	}
 	c.signers[t.Signer] = true
+	defer c.asked.learn(t)
 	signer := t.Signer
 	pool := AddrStr(feePoolAddr())
 	// what the successful messages of this tx legitimately take from non-signers
@@ -57,6 +61,10 @@ func (c *C03) AfterTx(w *World, t *TxCtx) {
 				ref, ok := refBuy(pre, o, bo)
 				if !ok {
 					continue
+				}
+				if want, known := c.asked[o.Id]; known && want != ref.Denom && ref.Seller != signer {
+					w.Violate("R2", "seller-paid-in-other-denomination", "BuyDirect fills sell order %d of %s, which asked in %s, but the order is settled in %s", o.Id, ref.Seller, want, ref.Denom)
+					return
 				}
 				k := fmt.Sprintf("%s|%d", ref.Seller, ref.BatchKey)
 				escrowAllowed.add(k, ref.Qty)
